@@ -17,6 +17,8 @@ import Proofs.InvertOk
 import Proofs.OpHistory
 import Proofs.UndoStructure
 import Proofs.OpGuardSplit
+import Proofs.OpGuardWrap
+import Proofs.OpGuardB
 import Props.C01
 namespace PM.C04
 open PM
@@ -2000,13 +2002,31 @@ shape of the node range), for the others `FamilyGuard` of the recorded steps (to
 /-- what an operation appended to the recorded history -/
 def appended (tr tr1 : Tr) : List (Step × Node) := tr1.hist.drop tr.hist.length
 
+/-- `NodeRange(resolve a, resolve b, depth)` is a node range as `block_range` builds it: `from ≤ to`, `to`
+    inside the node at the range's depth, both ends at child boundaries of that node -/
+def nodeRangeOk (d : Node) (a b depth : Nat) : Prop :=
+  ∃ rf rt, d.resolve a = some rf ∧ d.resolve b = some rt ∧ a ≤ b ∧ b ≤ rf.end_ depth ∧
+    (depth < rf.depth ∨ rf.textOffset = 0) ∧ (depth < rt.depth ∨ rt.textOffset = 0)
+
 /-- **what is asked of an operation of a run** (`tr` before, `tr1` after).
     * `add_mark` / `remove_mark`: no inline node with content in the document (`flatInline`; no bundled schema
       has one), the same-type guard (finding C04-same-type-mark-order) and pair-alignment per recorded step;
     * `join`, `split`: pair-alignment;
+    * `wrap`: a node range as `block_range` builds it (`nodeRangeOk`), no wrapper of a leaf type (with one
+      `Transform.wrap` goes through and its undo fails: an instance of finding C04-structure-inverse),
+      pair-alignment;
+    * `set_node_markup` of a non-leaf node to a non-leaf type (the complement is finding C04-leaf-retype
+      and the Fitter path) with a canonical mark set: pair-alignment;
     * every other operation: `FamilyGuard` of the steps it recorded. -/
 def OpResidual (S : Schema) (op : Op) (tr tr1 : Tr) : Prop :=
   match op with
+  | .wrap a b depth ws => nodeRangeOk tr.doc a b depth ∧ (∀ w ∈ ws, (S.nodeType w.1).isLeaf = false) ∧
+      HistAll (fun s _ d' => s.undoAligned d') (appended tr tr1) tr1.doc
+  | .setNodeMarkup pos ty _ marks =>
+      (∀ node, tr.doc.nodeAt pos = .ok (some node) → node.isLeaf = false ∧
+        (S.nodeType (ty.getD (S.tyOf node))).isLeaf = false ∧
+        canonicalMarks S (setFrom (marksOr marks node)) = true) ∧
+      HistAll (fun s _ d' => s.undoAligned d') (appended tr tr1) tr1.doc
   | .mark _ => flatInline S tr.doc = true ∧
       HistAll (fun s d d' => s.sameTypeGuard S d ∧ s.undoAligned d') (appended tr tr1) tr1.doc
   | .join _ _ => HistAll (fun s _ d' => s.undoAligned d') (appended tr tr1) tr1.doc
@@ -2075,6 +2095,105 @@ theorem liftGuard_family (S : Schema) (d d' : Node) (a b depth target : Nat) (st
     fun _ => replaceAround_hst_of_wrappers S d d' f t gf gt sl ins true hn hsn hwf hins hgo h hshape,
     hclean f t gf gt sl ins true rfl, hal⟩
 
+/-- the step `wrap` emits satisfies its `FamilyGuard` on a valid normal-form document: node range as
+    `block_range` builds it, no wrapper of a leaf type; pair-alignment left.  (Payload: the wrappers with
+    the range in place are valid because `insert_at` accepted them; `hst`: the slice is a nest of open
+    tokens before the insertion point and close tokens after it; `gapClean`: the gap is the range.) -/
+theorem wrapGuard_family (S : Schema) (d d' : Node) (a b depth : Nat) (ws : List (TypeId × Attrs)) (st : Step)
+    (hv : S.checkNode d = true) (hn : fnorm d.kids = true) (hr : nodeRangeOk d a b depth)
+    (hl : ∀ w ∈ ws, (S.nodeType w.1).isLeaf = false)
+    (hb : wrapStep S d a b depth ws = .ok st) (h : S.apply st d = .ok d')
+    (hal : st.undoAligned d') : FamilyGuard S st d d' := by
+  obtain ⟨rf, rt, hf, ht, hab, hend, hfb, htb⟩ := hr
+  obtain ⟨f, t, gf, gt, sl, ins, rfl, hsn, hwf, hins, hgo, hp, hst, hclean⟩ :=
+    wrap_guard_parts S d d' a b depth ws st rf rt hv hn hf ht hab hend hfb htb hl hb h
+  exact ⟨hsn, hwf, hins, hgo, hp, fun _ => hst, hclean, hal⟩
+
+/-- the replace-around step `set_node_markup` and `set_block_type` emit for a non-leaf node (`retypeStep`:
+    keep the content as the gap, put the new empty node around it) satisfies its `FamilyGuard` on a valid
+    normal-form document when the new node is a non-leaf node with a canonical mark set (a leaf: finding
+    C04-leaf-retype); pair-alignment left -/
+theorem retypeGuard_family (S : Schema) (d d' node nn : Node) (pos : Nat)
+    (hv : S.checkNode d = true) (hn : fnorm d.kids = true)
+    (hna : d.nodeAt pos = .ok (some node)) (hnl : node.isLeaf = false)
+    (hnn : ∃ ty a m, nn = .elem ty a m [] ∧ canonicalMarks S m = true)
+    (h : S.apply (retypeStep pos (pos + node.size) nn) d = .ok d')
+    (hal : (retypeStep pos (pos + node.size) nn).undoAligned d') :
+    FamilyGuard S (retypeStep pos (pos + node.size) nn) d d' := by
+  obtain ⟨h1, h2, h3, h4, h5, h6, h7⟩ := retype_guard_parts S d d' node nn pos hv hn hna hnl hnn h
+  exact ⟨h1, h2, h3, h4, h5, fun _ => h6, h7, hal⟩
+
+/-- what `NodeType.create(attrs, None, marks)` gives for a non-leaf type -/
+theorem createNode_elem (S : Schema) (ty : TypeId) (attrs : Attrs) (ms : Marks) (nn : Node)
+    (hleaf : (S.nodeType ty).isLeaf = false) (h : S.createNode ty attrs ms = .ok nn) :
+    ∃ a, nn = .elem ty a (setFrom ms) [] := by
+  unfold Schema.createNode at h
+  simp only at h
+  split at h
+  · simp at h
+  · cases hc : computeAttrs (S.nodeType ty).attrs attrs with
+    | error e => simp [hc, Except.map] at h
+    | ok a =>
+      simp only [hc, Except.map, hleaf, Bool.false_eq_true, if_false, Except.ok.injEq] at h
+      exact ⟨a, h.symm⟩
+
+/-- **`set_node_markup`**: the step it records for a non-leaf node retyped to a non-leaf type -/
+theorem setNodeMarkupGuard_family (S : Schema) (d d' node nn : Node) (pos : Nat) (ty : TypeId) (attrs : Attrs)
+    (ms : Marks) (hv : S.checkNode d = true) (hn : fnorm d.kids = true)
+    (hna : d.nodeAt pos = .ok (some node)) (hnl : node.isLeaf = false)
+    (hleaf : (S.nodeType ty).isLeaf = false) (hms : canonicalMarks S (setFrom ms) = true)
+    (hc : S.createNode ty attrs ms = .ok nn)
+    (h : S.apply (retypeStep pos (pos + node.size) nn) d = .ok d')
+    (hal : (retypeStep pos (pos + node.size) nn).undoAligned d') :
+    FamilyGuard S (retypeStep pos (pos + node.size) nn) d d' := by
+  obtain ⟨a, rfl⟩ := createNode_elem S ty attrs ms nn hleaf hc
+  exact retypeGuard_family S d d' node _ pos hv hn hna hnl ⟨ty, a, _, rfl, hms⟩ h hal
+
+/-- **`set_block_type`**: the replace-around step it records for a textblock at (mapped) position `s`
+    ending at `e`, retyped to the (non-leaf) textblock type `ty` with the node's own marks -/
+theorem setBlockTypeGuard_family (S : Schema) (d d' node nn : Node) (s e : Nat) (ty : TypeId) (attrs : Attrs)
+    (hv : S.checkNode d = true) (hn : fnorm d.kids = true)
+    (hna : d.nodeAt s = .ok (some node)) (he : e = s + node.size) (hnl : node.isLeaf = false)
+    (hleaf : (S.nodeType ty).isLeaf = false) (hms : canonicalMarks S node.marks = true)
+    (hc : S.createNode ty attrs node.marks = .ok nn)
+    (h : S.apply (retypeStep s e nn) d = .ok d') (hal : (retypeStep s e nn).undoAligned d') :
+    FamilyGuard S (retypeStep s e nn) d d' := by
+  subst he
+  exact setNodeMarkupGuard_family S d d' node nn s ty attrs node.marks hv hn hna hnl hleaf
+    (by rw [setFrom_idem_of_canonical S _ hms]; exact hms) hc h hal
+
+/-- **the executable guard of PM/OpGuard.lean implies `FamilyGuard`** (replace / replace-around steps; the
+    driver request `familyGuard` evaluates it on recorded steps of real histories) -/
+theorem structGuardB_family (S : Schema) (s : Step) (d d' : Node) (h : structGuardB S s d d' = true) :
+    FamilyGuard S s d d' := by
+  cases s with
+  | replace f t sl b =>
+    simp only [structGuardB, structGuardParts, Bool.and_eq_true, Bool.and_true, alignedAtB_eq, openValidB_eq] at h
+    obtain ⟨⟨hsn, hp⟩, ha1, ha2⟩ := h
+    exact ⟨hsn, hp, ha1, ha2⟩
+  | replaceAround f t gf gt sl ins b =>
+    simp only [structGuardB, structGuardParts, Bool.and_eq_true, decide_eq_true_eq, alignedAtB_eq,
+      Bool.or_eq_true, Bool.not_eq_true', beq_iff_eq] at h
+    obtain ⟨⟨⟨⟨⟨⟨⟨⟨⟨hsn, hwf⟩, hins⟩, h1⟩, h2⟩, h3⟩, hp⟩, hst⟩, hclean⟩, ⟨⟨ha1, ha2⟩, ha3⟩, ha4⟩ := h
+    refine ⟨hsn, hwf, hins, ⟨h1, h2, h3⟩, ?_, ?_, ?_, ha1, ha2, ha3, ha4⟩
+    · intro gap x hg hx
+      rw [hg] at hp
+      simp only [hx, openValidB_eq] at hp
+      exact hp
+    · intro hb
+      rcases hst with hb' | hst
+      · rw [hb] at hb'; cases hb'
+      · exact hst
+    · intro old ho
+      rw [ho] at hclean
+      exact hclean
+  | addMark => simp [structGuardB, structGuardParts] at h
+  | removeMark => simp [structGuardB, structGuardParts] at h
+  | addNodeMark => simp [structGuardB, structGuardParts] at h
+  | removeNodeMark => simp [structGuardB, structGuardParts] at h
+  | attr => simp [structGuardB, structGuardParts] at h
+  | docAttr => simp [structGuardB, structGuardParts] at h
+
 theorem appended_eq {tr tr1 : Tr} {h2 : List (Step × Node)} (e : tr1.hist = tr.hist ++ h2) : appended tr tr1 = h2 := by
   simp [appended, e]
 
@@ -2107,8 +2226,32 @@ theorem op_family (S : Schema) (op : Op) (tr tr1 : Tr) (hlen : tr.steps.length =
     rw [appended_eq e] at hres ⊢
     exact ⟨splitGuard_family S _ _ pos depth st hI.1 hb ha hres.1, trivial⟩
   | lift a b depth target => exact hres
-  | wrap a b depth ws => exact hres
-  | setNodeMarkup pos ty attrs marks => exact hres
+  | wrap a b depth ws =>
+    obtain ⟨st, hb, hs⟩ := Tr.built_some h
+    obtain ⟨e, ha⟩ := Tr.step_hist hlen hs
+    obtain ⟨hr, hl, hal⟩ := hres
+    rw [appended_eq e] at hal ⊢
+    exact ⟨wrapGuard_family S _ _ a b depth ws st hI.1 hI.2 hr hl hb ha hal.1, trivial⟩
+  | setNodeMarkup pos ty attrs marks =>
+    obtain ⟨hnode, hal⟩ := hres
+    obtain ⟨st', hs, rfl⟩ := Tr.planned_some (run := fun st => st.setNodeMarkupF S pos ty attrs marks) h
+    unfold PSt.setNodeMarkupF at hs
+    simp only at hs
+    split at hs
+    · simp at hs
+    · simp at hs
+    · rename_i node hna
+      obtain ⟨hnl, hleaf, hms⟩ := hnode node hna
+      split at hs
+      · simp at hs
+      · rename_i nn hc
+        rw [if_neg (by simp [hnl])] at hs
+        split at hs
+        · simp at hs
+        · obtain ⟨e, ha⟩ := Tr.step_hist hlen (PSt.step_tr' (liftP_ok hs))
+          rw [appended_eq e] at hal ⊢
+          exact ⟨setNodeMarkupGuard_family S _ _ node nn pos _ attrs _ hI.1 hI.2 hna hnl hleaf hms hc ha hal.1,
+            trivial⟩
   | setBlockType f t ty attrs => exact hres
 
 /-- a run of operations: what it appended replays and satisfies `FamilyGuard` -/
